@@ -138,6 +138,11 @@ class Run:
         method = call.method
         if call.note is not None and call.note[0] == 'bad':
             return self.bad_step(i, call, method, kwargs)
+        if op.get('nocall'):
+            # C14's third run: the model goes through the same motions as for a refused call (names drawn, serials
+            # consumed), the library is not called at all
+            self.refused.append((i, 'nocall: taken out'))
+            return 'refused'
         if method == 'add_fp':
             fp = self._content_fp(call.blob)
             args = (fp, call.blob.length)
@@ -295,12 +300,16 @@ class Run:
             self.problem('query/exception/%s' % exc_signature(e), 'query-raised', 'query %d on %s %r raised %r' % (q, ns, p, e))
         return 'query'
 
-    def write(self, recorder=None):
+    def write(self, recorder=None, probe=False):
+        """`probe`: a mastering that the history itself does not contain (C14's before/after images); where the history's own
+        writes would drop a hybridization whose partition offset lies beyond the image, a probe returns None and changes nothing."""
         out = recorder if recorder is not None else io.BytesIO()
         try:
             self.iso.write_fp(out)
         except pex.PyCdlibInvalidInput as e:
             if 'partition offset lies beyond' in str(e) and self.model.hybrid is not None:
+                if probe:
+                    return None
                 if recorder is not None:
                     recorder.seek(0)
                     recorder.truncate()
